@@ -40,7 +40,7 @@ DefiniteFailure(z, y) == z = "exception" \/ y = "exception"
                          \/ (z = "FAILURE" /\ y # "BLOCK" /\ Logic \in {"and", "unanimous", "assessor_priority"})
 IntentionalBlock(z, y) == z \notin {"exception", "FAILURE"} /\ y # "exception" /\ (y = "BLOCK" \/ z = "BLOCK")
 NoObsRes == Res(FALSE, TRUE, "INIT", FALSE)
-Init == /\ circuit = "closed" /\ failures = 0 /\ sinceFail = Never /\ cache = [p \in {} |-> 0]
+Init == /\ circuit = "closed" /\ failures = 0 /\ sinceFail = Never /\ cache = [p \in {} |-> NoObsRes]
         /\ inj = 0 /\ consec = 0
         /\ obs = [op |-> "init", p |-> "none", z |-> "none", y |-> "none", d |-> 0, res |-> NoObsRes, cached |-> FALSE,
                   kind |-> "none", dinv |-> 0]
